@@ -27,6 +27,9 @@ var Profiles = map[string]Profile{
 	"default": {Name: "default", MaxMag: 12, Weights: map[string]int{
 		"delegate": 26, "undelegate": 14, "redelegate": 10, "claim": 8, "allocate": 9, "block": 14,
 		"slash": 5, "gov": 6, "native": 5, "donate": 1, "unknown": 2}},
+	"genesis": {Name: "genesis", MaxMag: 10, Weights: map[string]int{
+		"delegate": 22, "undelegate": 16, "redelegate": 14, "claim": 5, "allocate": 6, "block": 14,
+		"slash": 5, "gov": 6, "native": 3, "donate": 1, "unknown": 1, "reimport": 8}},
 	"big": {Name: "big", MaxMag: 30, Weights: map[string]int{
 		"delegate": 26, "undelegate": 16, "redelegate": 10, "claim": 8, "allocate": 9, "block": 14,
 		"slash": 5, "gov": 4, "native": 4, "donate": 1, "unknown": 1}},
@@ -374,6 +377,8 @@ func (g *Gen) Next() string {
 		return fmt.Sprintf("allocate %d %d %s", g.val(), d, g.logUniform(g.P.MaxMag).String())
 	case "block":
 		return fmt.Sprintf("block %d", g.blockDt())
+	case "reimport":
+		return "reimport"
 	case "slash":
 		if g.R.Intn(3) == 0 {
 			return fmt.Sprintf("realslash %d %s", g.val(), g.choice(fractions))
